@@ -88,6 +88,18 @@ theorem select_not_benign (hs : Handlers) (es : List Exc) (h : ∃ e ∈ es, ben
     have := List.find?_eq_none.mp hnone e (by simpa using hmem)
     simp [hb] at this
 
+theorem handlerFor_default_forced : handlerFor defaultHandlers forcedFailure = some (.std .failure) := by decide
+
+/-- with the forced failure last, every exception claimed and the forced failure handled by something else than the
+case's own skip / expected-failure reporter, the forced failure is the one selected -/
+theorem select_forced_last (hs : Handlers) (L : List Exc) (hall : ∀ e ∈ L ++ [forcedFailure], claimed hs e = true)
+    (hb : benign hs forcedFailure = false) : select hs (L ++ [forcedFailure]) = some forcedFailure := by
+  unfold select
+  have h1 : (L ++ [forcedFailure]).find? (fun e => !claimed hs e) = none := by
+    rw [List.find?_eq_none]; intro e he; simp [hall e he]
+  rw [h1]
+  simp [List.reverse_append, List.find?_cons, hb]
+
 section perRun
 variable (p : Program) (ff0 : Bool) (hwf : wf p = true)
 include hwf
@@ -206,6 +218,36 @@ theorem clause_noDowngrade : cNoDowngrade p ff0 (runOnce p ff0) = true := by
       cases hsel'
       exact degrade_unsuccessful _ _ (hrep_unsucc e rep hh hb')
 
+theorem clause_expectationFails : cExpectationFails p ff0 (runOnce p ff0) = true := by
+  cases hskip : p.skipDeco with
+  | some r => simp [cExpectationFails, hskip]
+  | none =>
+    simp only [cExpectationFails, hskip, Option.isSome_none, Bool.false_or, Bool.or_eq_true]
+    obtain ⟨o, d, r, sel, hdec, hshape⟩ := runOnce_shape p ff0 hwf hskip
+    rw [hshape, observed_shape p ff0 hwf hskip, (reads_of p ff0 hwf hskip _ _ _ _ _ _).ffNow]
+    by_cases hff : (runCore p ff0).1.ff = true
+    case neg => left; left; simpa using hff
+    by_cases hu : (handlerFor p.userHandlers forcedFailure).isSome = true
+    case pos => left; right; exact hu
+    right
+    have cf := runCore_facts p ff0 hwf hskip
+    have hex : (runCore p ff0).1.excs = (runCore p ff0).1.execd.flatMap (stageExcs p) ++ [forcedFailure] := by
+      rw [cf.excs]; simp [hff]
+    have hh0 : handlerFor (handlers p) forcedFailure = some (.std .failure) := by
+      have hn : handlerFor p.userHandlers forcedFailure = none := by simpa using hu
+      simp only [handlers, handlerFor_append, hn, Option.none_or, handlerFor_default_forced]
+    cases hdec with
+    | success hnil => rw [hex] at hnil; simp at hnil
+    | lastResort e hsel hh => right; simp
+    | handled e rep hsel hh =>
+      left
+      have hall := select_handled_all _ _ e rep hsel hh
+      rw [hex] at hall hsel
+      rw [select_forced_last _ _ hall (by simp [benign, hh0])] at hsel
+      cases hsel
+      rw [hh0] at hh; cases hh
+      simp [Reporter.outcome]
+
 end perRun
 
 /-- the executable spec of C03 holds of the model's trace for every input -/
@@ -213,7 +255,8 @@ theorem holds_model (i : Input) : holds i (model i) = true := by
   simp only [holds, clauses, List.all_cons, List.all_nil, Bool.and_true, Bool.and_eq_true]
   exact ⟨C01.lift_model _ i (fun hwf ff0 => clause_successIff _ ff0 hwf),
     C01.lift_model _ i (fun hwf ff0 => clause_single _ ff0 hwf),
-    C01.lift_model _ i (fun hwf ff0 => clause_noDowngrade _ ff0 hwf)⟩
+    C01.lift_model _ i (fun hwf ff0 => clause_noDowngrade _ ff0 hwf),
+    C01.lift_model _ i (fun hwf ff0 => clause_expectationFails _ ff0 hwf)⟩
 
 /-! ## readable statements -/
 
@@ -238,12 +281,28 @@ theorem C03_success_iff (p : Program) (ff0 : Bool) (hwf : wf p = true) (hskip : 
     rw [h] at this
     simpa using this
 
-/-- C03 (forced failure): a mismatching `expectThat` anywhere in an executed stage, or `force_failure`
-left set, makes the run raise the forced failure — so by `C03_success_iff` it is not a success. -/
+/-- C03 (forced failure): a mismatching `expectThat` anywhere in an executed stage — `setUp` included, whether or
+not `setUp` then completes —, or `force_failure` left set, makes the run raise the forced failure — so by
+`C03_success_iff` it is not a success. -/
 theorem C03_forced (p : Program) (ff0 : Bool) (hwf : wf p = true) (hskip : p.skipDeco = none)
-    (hok : setUpOk p = true) (hff : (runCore p ff0).1.ff = true) : forcedFailure ∈ (runCore p ff0).1.excs := by
+    (hff : (runCore p ff0).1.ff = true) : forcedFailure ∈ (runCore p ff0).1.excs := by
   have cf := runCore_facts p ff0 hwf hskip
-  rw [cf.excs]; simp [hok, hff]
+  rw [cf.excs]; simp [hff]
+
+/-- C03 (a failed expectation is never reported as anything milder): if an `expectThat` mismatched in an executed
+stage (or `force_failure` was left set) and the user inserted no handler claiming the forced `AssertionError`, the
+one reported outcome is a failure, or the error of an exception that has to propagate — whatever else was raised,
+in particular when `setUp` recorded the mismatch and then raised a skip or an expected failure. -/
+theorem C03_expectation_fails (p : Program) (ff0 : Bool) (hwf : wf p = true) (hskip : p.skipDeco = none)
+    (hu : handlerFor p.userHandlers forcedFailure = none) (hff : (runCore p ff0).1.ff = true) :
+    observed (runOnce p ff0) = some (degrade p.flavour .failure) ∨
+    observed (runOnce p ff0) = some (degrade p.flavour .error) := by
+  have := clause_expectationFails p ff0 hwf
+  simp only [cExpectationFails, hskip, Option.isSome_none, Bool.false_or, hu, Option.isSome_none, Bool.or_false] at this
+  obtain ⟨o, d, r, sel, hdec, hshape⟩ := runOnce_shape p ff0 hwf hskip
+  rw [hshape, (reads_of p ff0 hwf hskip _ _ _ _ _ _).ffNow, observed_shape p ff0 hwf hskip] at this
+  rw [hshape, observed_shape p ff0 hwf hskip]
+  simpa [hff] using this
 
 /-- C03 (single exception): exactly one exception ⇒ the outcome its type maps to, user handlers first. -/
 theorem C03_single (p : Program) (ff0 : Bool) (hwf : wf p = true) (hskip : p.skipDeco = none) (e : Exc)
